@@ -829,6 +829,8 @@ def r7_read_amount(rep, src):
             return None
         it = affinterp.Interp(f.site, _int_consts(f.module), call_hook=hook)
         env = {'self.__cur': CUR, 'self.__offset': OFF, 'self.__end': END, 'self.__fp': affinterp.Opaque('file'), 'self.__fname': affinterp.Opaque('name'), size: sval}
+        for k_, v_ in _fresh_attrs(src, env).items():
+            env[k_] = v_
         outs = it.run(fnode.body, env, Facts([CUR - OFF, END - OFF] + facts0))
         npaths += len(outs)
         bad = None
@@ -1042,6 +1044,132 @@ def r11_lookups(rep, src):
                     where=fn.where)
 
 
+def r12_histories(rep, src, tier):
+    """the clause "under arbitrary interleaving with other members": two members of one archive built by interpreting from_file (sa.heap)
+    on the bytes of a two-member archive behind ONE model file object, then every history of up to two (thorough: three) operations on the
+    first member -- read / readline / readlines with the sizes that matter, seek under the three whence values, tell -- each followed by a
+    read on the second member through the same file object; every result and every tell() is compared with io.BytesIO of the member's
+    data.  What the per-call rules (R1, R2, R5, R7) cannot see -- state that one call leaves for the next -- is decided here, from the
+    state a freshly opened archive has."""
+    import io
+    import itertools
+    from .. import heap as H
+    mod = src.mod(M)
+    ff = src.func(M + ':ArMember.from_file')
+
+    def header(name, size):
+        return (name.ljust(16) + '0'.ljust(12) + '0'.ljust(6) + '0'.ljust(6) + '644'.ljust(8) + str(size).ljust(10)).encode() + b'`\n'
+    D1, D2 = b'ab\ncd\nef', b'xyz\n12\n'
+    pad = lambda b: b + (b'\n' if len(b) % 2 else b'')      # noqa: E731
+    ARCH = b'!<arch>\n' + header('one/', len(D1)) + pad(D1) + header('two/', len(D2)) + pad(D2)
+    OFF2 = 8 + 60 + len(pad(D1)) + 60
+
+    def world():
+        def delegate(name):
+            def hook(it, a, k):
+                if isinstance(a[0], H.Ref) and it.h.objs[a[0].name]['__class__'] == 'ArMember':
+                    m_ = mod.method('ArMember', name)          # (a member calling its own method)
+                    return it.call(H.Closure(m_.node, {}, a[0], m_.cls), list(a[1:]), k)
+                o = it.h.objs[a[0].name]
+                pos = o['pos']
+                if any(not (x is None or (isinstance(x, int) and not isinstance(x, bool))) for x in a[1:]):
+                    raise AnalysisError('the model file is called with %r' % (a[1:],))
+                if name == 'read':
+                    n = a[1] if len(a) > 1 else -1
+                    if n is None or n < 0:
+                        n = max(len(ARCH) - pos, 0)
+                    chunk = ARCH[pos:pos + n]
+                    o['pos'] = pos + len(chunk)
+                    return chunk
+                if name == 'readline':
+                    f_ = io.BytesIO(ARCH)
+                    f_.seek(pos)
+                    chunk = f_.readline(-1 if len(a) < 2 or a[1] is None else a[1])
+                    o['pos'] = f_.tell()
+                    return chunk
+                if name == 'seek':
+                    wh = a[2] if len(a) > 2 else 0
+                    o['pos'] = a[1] if wh == 0 else pos + a[1] if wh == 1 else len(ARCH) + a[1]
+                    if o['pos'] < 0:
+                        raise H.Raised('OSError', it.h.version, 0)
+                    return o['pos']
+                return pos
+            return hook
+        heap = H.Heap(mod, hooks={'.' + n_: delegate(n_) for n_ in ('read', 'readline', 'seek', 'tell')})
+        heap.hooks['sys.getfilesystemencoding'] = lambda it, a, k: 'utf-8'
+        it = H.Interp(heap)
+        fp = heap.alloc('File', {'pos': 8}, name='@fp')
+        m1 = it.call(H.Closure(ff.node, {}, None, ff.cls), [fp, None])
+        heap.objs[fp.name]['pos'] = OFF2 - 60
+        m2 = it.call(H.Closure(ff.node, {}, None, ff.cls), [fp, None])
+        if not all(isinstance(m_, H.Ref) and heap.objs[m_.name]['__class__'] == 'ArMember' for m_ in (m1, m2)):
+            raise AnalysisError('%s does not return members for the model archive' % ff.site)
+        return heap, it, m1, m2
+
+    def member_call(it, m, name, args):
+        f_ = mod.method('ArMember', name)
+        if f_ is None:
+            raise AnalysisError('%s:ArMember.%s not found' % (M, name))
+        r = it.call(H.Closure(f_.node, {}, m, f_.cls), list(args))
+        return list(it.h.items(r)) if it.h.is_list(r) else r
+    OPS = [('read', ()), ('read', (0,)), ('read', (1,)), ('read', (3,)), ('read', (100,)), ('read', (None,)), ('read', (-1,)),
+           ('readline', ()), ('readline', (1,)), ('readline', (2,)), ('readline', (100,)), ('readline', (0,)), ('readlines', ()), ('readlines', (4,)),
+           ('seek', (0,)), ('seek', (4,)), ('seek', (2, 1)), ('seek', (-3, 2)), ('seek', (20,)), ('tell', ())]
+    SMALL = [('read', (1,)), ('read', ()), ('readline', ()), ('readline', (1,)), ('readline', (2,)), ('readlines', (4,)), ('seek', (4,)), ('seek', (-3, 2))]
+    histories = [h_ for h_ in itertools.product(OPS, repeat=2)] + [h_ for h_ in itertools.product(SMALL, repeat=3)]
+    if tier == 'thorough':
+        histories = [h_ for h_ in itertools.product(OPS, repeat=3)]
+    site = M + ':ArMember'
+    n, bad = 0, None
+    import copy as _copy
+    heap, it, m1, m2 = world()
+    snapshot = _copy.deepcopy(heap.objs)          # the state right after opening: every history starts from it
+    for hist in histories:
+        for interleave in (True, False):
+            heap.objs.clear()
+            heap.objs.update(_copy.deepcopy(snapshot))
+            ref1, ref2 = io.BytesIO(D1), io.BytesIO(D2)
+            done = []
+            for name, args in hist:
+                try:
+                    got = member_call(it, m1, name, args)
+                except H.Raised as x:
+                    got = 'raises %s' % x.exc
+                want = getattr(ref1, name)(*args)
+                done.append('%s(%s)' % (name, ', '.join(repr(a_) for a_ in args)))
+                pos_g = member_call(it, m1, 'tell', [])
+                if (got != want or pos_g != ref1.tell()) and bad is None:
+                    bad = ('after %s on the first member %s the call %s gives %r at position %r; a file of the member\'s data %r gives %r at position %r'
+                           % (', '.join(done[:-1]) or 'opening the archive', '(each followed by read(2) on the second member)' if interleave else '', done[-1], got, pos_g, D1, want, ref1.tell()))
+                if interleave:
+                    g2, w2 = member_call(it, m2, 'read', [2]), ref2.read(2)
+                    if g2 != w2 and bad is None:
+                        bad = 'after %s on the first member, read(2) on the second member gives %r instead of %r' % (', '.join(done), g2, w2)
+            n += 1
+        if bad:
+            break
+    rep.analysed['paths'] += n
+    if bad:
+        rep.fail('C06.R12', site, 'histories of two members on one file object', bad)
+    else:
+        rep.ok('C06.R12', site, 'histories of two members on one file object', '%d histories of %d operations, with and without reads of the other member in between: every result '
+               'and position as for io.BytesIO of the member' % (n, len(histories[-1])))
+
+
+def _fresh_attrs(src, known):
+    """instance attributes of ArMember that the per-call rules do not model, with the constant __init__ gives them: those rules then
+    speak about a member in that state (what later states do is decided on histories, R12)"""
+    init = src.mod(M).method('ArMember', '__init__')
+    out = {}
+    for st in (ast.walk(init.node) if init is not None else ()):
+        if isinstance(st, (ast.Assign, ast.AnnAssign)):
+            t_ = st.targets[0] if isinstance(st, ast.Assign) else st.target
+            if isinstance(t_, ast.Attribute) and norm(t_.value) == 'self' and isinstance(st.value, ast.Constant) and norm(t_) not in known \
+                    and (st.value.value is None or isinstance(st.value.value, (bool, str, bytes))):
+                out[norm(t_)] = st.value.value
+    return out
+
+
 def check(src, rep, tier):
     rep.explanation = ('C06: (R1) for every data-returning call on the shared file object inside ArMember all CFG paths to the call are '
                        'enumerated and 0 ≤ size ≤ end−cur is proved from the guards/assignments on the path (difference-bound entailment, '
@@ -1049,7 +1177,7 @@ def check(src, rep, tier):
                        'with no intervening cursor change, the cursor update lies on every path to a return, out-of-range returns b\'\'.  '
                        '(R3) header slices/roles equal the ar(5) table, numeric fields via int(), data window = tell()/+size.  (R4) the '
                        'advance after a member is size + (size mod 2) for both parities.  (R5) whence table and tell.  (R6) listing order and last-wins index.')
-    rep.not_decided = ['equality with an in-memory file under arbitrary operation histories', 'GNU long names']
+    rep.not_decided = ['equality with an in-memory file under operation histories longer than three calls', 'GNU long names']
     rep.need('C06.R1', 2)
     rep.need('C06.R2', 6)
     rep.need('C06.R3', 15)
@@ -1071,3 +1199,5 @@ def check(src, rep, tier):
     rep.guard('C06.R8', r8_iteration, src)
     rep.need('C06.R7', 7)
     rep.guard('C06.R7', r7_read_amount, src)
+    rep.need('C06.R12', 1)
+    rep.guard('C06.R12', r12_histories, src, tier)
